@@ -86,6 +86,28 @@ fn main() {
             let len = if thorough { 5 } else { 3 };
             let mut rng = Rng::new(seed ^ 0xC05 ^ if EXTRAS { 0xE0 } else { 0 });
             let mut distinct = std::collections::HashSet::new();
+            // the skipper's bound on its search list (MAX_SKIP_STRINGS): a chain of rules that mention the next one twice, whose
+            // inlined list has 2^n strings, and a flat choice of n distinct terminators, on both sides of the bound
+            {
+                let unit = |inner: Expr| Expr::Rep(bx(Expr::Seq(bx(Expr::NegPred(bx(inner))), bx(Expr::Ident("ANY".into())))));
+                let mut gs: Vec<Vec<Rule>> = vec![];
+                for n in [3usize, 10, 11, 13] {
+                    let mut rules = vec![Rule { name: "x".into(), ty: RuleType::Atomic, expr: unit(Expr::Ident("c0".into())) }];
+                    for i in 0..n { rules.push(Rule { name: format!("c{}", i), ty: RuleType::Normal, expr: Expr::Choice(bx(Expr::Ident(format!("c{}", i + 1))), bx(Expr::Ident(format!("c{}", i + 1)))) }); }
+                    rules.push(Rule { name: format!("c{}", n), ty: RuleType::Normal, expr: s("a") });
+                    gs.push(rules);
+                }
+                for n in [1023usize, 1024, 1025, 1030] {
+                    let mut e = s(&format!("t{}", n - 1));
+                    for i in (0..n - 1).rev() { e = Expr::Choice(bx(s(&format!("t{}", i))), bx(e)); }
+                    gs.push(vec![Rule { name: "x".into(), ty: RuleType::Atomic, expr: unit(e) }]);
+                }
+                for rules in gs { let srules = show_rules(&rules); for p in ["skip", "optimize"] {
+                    let l = format!("O {} {} {}", EXTRAS as u8, p, srules);
+                    let (i, v) = eval_line(&l, &mut stats);
+                    if i != srules && i != "panic" { distinct.insert(l.clone()); }
+                    out.push(l, i, v); } }
+            }
             for gi in 0..ngram {
                 // syntactic: guarded grammars plus shaped / unguarded rules (with rule cycles, zero counts)
                 let cfg = GenCfg { extras: EXTRAS, guarded: true, stack_ops: true, tags: EXTRAS && gi % 4 == 1, max_rules: 4, max_depth: 4, builtin_names: false, tag_shapes: TAG_SHAPES };
